@@ -391,11 +391,25 @@ def run(ctx):
     rqs, traces = [], []
     R.install()
     try:
+        # plans by (endpoint, from, to): used to re-send the SAME numbers under the other input notation
+        plans = {(r_[0]["ep"], r_[0]["from"], r_[0]["to"]): r_ for r_ in reqs}
         for k in range(K):
             for j, req in enumerate(reqs):
                 rq = build_request(req, rnd, j + k)
                 rqs.append(rq)
                 traces.append(R.run_request(rq))
+                # twin: identical numeric tokens (HP-valid, hence also valid decimal degrees), other from_angle_type,
+                # sent straight afterwards in the same process (an answer must not depend on earlier requests)
+                if req[0]["from"] == "dms" and (j + k) % 3 == 0:
+                    other = plans.get((req[0]["ep"], "dd" if j % 2 else "absent", req[0]["to"]))
+                    if other is not None:
+                        toks = dict((f, t) for (f, t) in rq["pairs"] if f not in TYPE_FIELDS)
+                        num = [(f, toks[f]) for (f, _) in other[2]]
+                        typ = [(n_, other[0][key]) for (n_, key) in zip(TYPE_FIELDS, ("from", "to")) if other[0][key] != "absent"]
+                        twin = {"ep": rq["ep"], "pairs": num + typ, "cls": rq["cls"], "plan_in": [list(p_) for p_ in other[2]],
+                                "plan_out": [list(p_) for p_ in other[3]]}
+                        rqs.append(twin)
+                        traces.append(R.run_request(twin))
         rqs.append({"ep": "index"})
         traces.append(R.run_index())
     finally:
